@@ -191,6 +191,70 @@ def _experiment(args):
     return {"name": name, "k": k, "after": after, "died": died, "rec": rec, "broken": broken, "notes": notes[:5]}
 
 
+class Fault(Crash):
+    """A transient storage fault instead of a crash: the k-th SQL event (a write statement or a COMMIT) is refused once with
+    the error SQLite gives for a busy / failing file; the process lives on and answers."""
+
+    def __init__(self, engine, fault_at):
+        Crash.__init__(self, engine, None)
+        import sqlalchemy
+        import sqlite3 as _sq
+        self.fault_at = fault_at
+        self.fired = None
+        self.fail_commit = False
+        store = engine._data_store
+        dialect = store.dialect
+        inner = dialect.do_commit
+
+        def do_commit(dbapi_connection):
+            if self.fail_commit:
+                self.fail_commit = False
+                raise _sq.OperationalError("database is locked")
+            return inner(dbapi_connection)
+        dialect.do_commit = do_commit
+        self._exc = sqlalchemy.exc.OperationalError
+
+    def mark(self, what):
+        self.events.append(what)
+        if self.fired is None and len(self.events) == self.fault_at:
+            self.fired = what
+            if what == "C":
+                self.fail_commit = True          # the DBAPI commit that follows this event fails
+            elif what.startswith("W:"):
+                import sqlite3 as _sq
+                raise self._exc(what, {}, _sq.OperationalError("database is locked"))
+
+
+def _fault_experiment(args):
+    name, req, base, k = args
+    common.scratch()
+    work = os.path.join(common.scratch(), "c09_fault_%s_%d.db" % (name, k))
+    shutil.copyfile(base, work)
+    D.CLOCK.now = 2000000
+    drv = D.EngineDriver(db=work, intern=E.new_interner())
+    fl = Fault(drv.engine, k)
+    try:
+        res = drv.request(req)
+    except Exception as e:
+        res = {"kind": "raised", "reason": "%s: %s" % (type(e).__name__, e), "items": []}
+    drv.stop()
+    items = res.get("items") or []
+    nacked = 0
+    for it in items:
+        if it["status"] != "Success":
+            break
+        nacked += 1
+    rec = dump(work)
+    broken, notes = fresh_check(work)
+    for sfx in ("", "-journal", "-wal", "-shm"):
+        try:
+            os.unlink(work + sfx)
+        except OSError:
+            pass
+    return {"name": name, "k": k, "fired": fl.fired, "nacked": nacked, "rec": rec, "broken": broken, "notes": notes[:5],
+            "answer": [(it["status"], it["reason"]) for it in items] or [(res.get("kind"), res.get("reason"))]}
+
+
 SYSCALLS = "pwrite64,pwritev,write,unlink,unlinkat,fsync,fdatasync,ftruncate"
 
 
@@ -333,8 +397,9 @@ def check(run, tier):
                 "engine then opens the file (Locate, Get, GetAttributes of everything) and every table is dumped raw; each "
                 "experiment is validated by TraceC09.tla (atomic, durable, one transaction, openable); plus SIGKILL at random "
                 "instants during a create/destroy workload. distinct = distinct (operation, crash point) experiments.")
-    cfg = tlc.write_cfg("MC_C09.cfg", "SPECIFICATION Spec\nCONSTANTS\n  Ops <- OpsC09\n  SPLIT_COMMIT = FALSE\nINVARIANT AckedDurable\n"
-                        "INVARIANT AllOrNothing\nINVARIANT NoOrphanWrites\nCHECK_DEADLOCK FALSE\n")
+    cfg = tlc.write_cfg("MC_C09.cfg", "SPECIFICATION Spec\nCONSTANTS\n  Ops <- OpsC09\n  SPLIT_COMMIT = FALSE\n  FAULTS = 2\n  RETRY_AFTER_ROLLBACK = FALSE\n"
+                        "INVARIANT AckedDurable\nINVARIANT AllOrNothing\nINVARIANT NoOrphanWrites\nINVARIANT FailedAbsent\n"
+                        "INVARIANT AckedOnDisk\nCHECK_DEADLOCK FALSE\n")
     res = tlc.run("MC_C09", cfg, allow_violation=True)
     run.add_tlc(res, "MC_C09: crash at every step")
     if res.violated:
@@ -369,6 +434,23 @@ def check(run, tier):
                      "posts": info[o["name"]]["posts"], "nitems": info[o["name"]]["nitems"],
                      "rec": o["rec"], "acked": False, "broken": o["broken"], "notes": o["notes"]})
         run.case((o["name"], "after" if o["after"] else o["k"]))
+    # transient storage faults: every write statement / COMMIT of every operation refused once, the process lives on
+    ftasks = [(name, req, base, k) for name, req in operations() for k, ev in enumerate(info[name]["events"], 1) if ev != "B"]
+    with multiprocessing.Pool(common.NCPU) as pool:
+        fouts = pool.map(_fault_experiment, ftasks, chunksize=2)
+    nfired = 0
+    for o in fouts:
+        if o["fired"] is None:
+            continue                     # the faulted run took another path before reaching event k
+        nfired += 1
+        inf = info[o["name"]]
+        recs.append({"id": "%s@fault:%s#%d" % (o["name"], o["fired"], o["k"]), "events": inf["events"][:o["k"]], "full": inf["events"],
+                     "pre": pre, "post": inf["post"], "posts": inf["posts"], "nitems": inf["nitems"], "rec": o["rec"], "acked": False,
+                     "broken": o["broken"], "notes": o["notes"] + ["answer: %s" % (o["answer"],)], "fault": True, "nacked": o["nacked"]})
+        run.case((o["name"], "fault", o["fired"], o["k"]))
+    if nfired < len(ftasks) // 2:
+        raise common.MachineryFailure("C09 storage-fault leg: only %d of %d faults fired" % (nfired, len(ftasks)))
+    run.extra["storage_fault_experiments"] = nfired
     # the acknowledged case: the operation completed and answered, then the process died
     for name, inf in info.items():
         recs.append({"id": "%s@acked" % name, "events": inf["events"], "full": inf["events"], "pre": pre, "post": inf["post"],
@@ -397,6 +479,9 @@ def check(run, tier):
                      "broken": o["broken"], "notes": o["notes"] + (["hot journal present"] if o["journal"] else [])})
         run.case((o["name"], "sys", o["call"], o["k"]))
     run.extra["write_syscalls_per_operation"] = nsys
+    for x in recs:
+        x.setdefault("fault", False)
+        x.setdefault("nacked", 0)
     path = os.path.join(common.scratch(), "c09.json")
     json.dump(recs, open(path, "w"))
     cfg = tlc.write_cfg("TraceC09.cfg", "SPECIFICATION Spec\nCHECK_DEADLOCK FALSE\n")
@@ -409,7 +494,8 @@ def check(run, tier):
         x = by[v["id"]]
         for c in v["clauses"]:
             run.violation(c, {"op": v["id"].split("@")[0], "point": "after-commit" if "after" in v["id"] else
-                              "inside-sqlite-commit" if "@sys" in v["id"] else "before-commit"},
+                              "inside-sqlite-commit" if "@sys" in v["id"] else
+                              "storage-fault:" + v["id"].split("@fault:")[1].split("#")[0] if "@fault:" in v["id"] else "before-commit"},
                           {"experiment": v["id"], "events_before_crash": x["events"], "all_events": x["full"],
                            "rows_only_in_recovered": sorted(set(x["rec"]) - set(x["pre"]) - set(x["post"]))[:10],
                            "rows_missing_vs_post": sorted(set(x["post"]) - set(x["rec"]))[:10], "problems": x["notes"]})
